@@ -267,6 +267,10 @@ type wclientPlan struct {
 	Audio    bool   `json:"audio_track"`          // also SETUP the audio track
 	NoRTCP   bool   `json:"no_rtcp_channel"`      // interleaved=N (no second channel): RTCP is not subscribed
 	Chans    [4]int `json:"channels"`             // interleaved channel numbers asked for in SETUP
+	// KeepAlive k > 0 (tcp, ws): while it plays the client sends an OPTIONS request before
+	// every k-th published packet and during the sentinel phase, as real players do to
+	// keep their session alive; the answers share the connection with the media
+	KeepAlive int `json:"keepalive_every,omitempty"`
 }
 
 type wplan struct {
@@ -384,6 +388,9 @@ func genWirePlan(t *rapid.T) *wplan {
 		}
 		c.Audio = pl.Audio && rapid.IntRange(0, 3).Draw(t, "audioTrack") > 0
 		c.NoRTCP = rapid.IntRange(0, 5).Draw(t, "noRtcp") == 0
+		if c.Kind == "tcp" || c.Kind == "ws" {
+			c.KeepAlive = rapid.SampledFrom([]int{0, 0, 1, 1, 2, 5}).Draw(t, "keepAlive")
+		}
 		// four distinct channel numbers from the whole 0..255 range, the usual 0-1 / 2-3 often
 		if rapid.Bool().Draw(t, "usualChannels") {
 			c.Chans = [4]int{0, 1, 2, 3}
@@ -529,6 +536,19 @@ type wclient struct {
 	left     bool
 	skipped  bool // the host could not give it its multicast socket: not part of the case
 	tornDown bool // a TEARDOWN was sent: one response is expected
+	keepOut  int  // keep-alive requests sent and not answered yet
+	keepSent int
+}
+
+// keepAlive sends one OPTIONS request on the playing connection without waiting for the answer.
+func (c *wclient) keepAlive(s *srv.Server, path string) {
+	if c.pl.KeepAlive == 0 || !c.attached || c.left || c.rc == nil || c.isEnded() || c.problem != "" {
+		return
+	}
+	if c.rc.Send(c.rc.Build("OPTIONS", s.RTSP(path), nil, nil)) == nil {
+		c.keepOut++
+		c.keepSent++
+	}
 }
 
 // datagram: media arrives as datagrams, one socket per ipchub channel.
@@ -866,6 +886,8 @@ func (c *wclient) poll() {
 			}
 			if it.Frame != nil {
 				c.items = append(c.items, witem{int(it.Frame.Channel), it.Frame.Payload})
+			} else if c.keepOut > 0 {
+				c.keepOut-- // the answer to a keep-alive (its content is C12's subject)
 			} else if c.tornDown {
 				c.tornDown = false
 			} else if c.problem == "" {
@@ -1118,6 +1140,11 @@ func runWire(t evid.TB, pl *wplan, audience bool) *wresult {
 	}
 	for i := 0; i < n0; i++ {
 		step(i)
+		for _, c := range clients {
+			if c.pl.KeepAlive > 0 && i%c.pl.KeepAlive == 0 {
+				c.keepAlive(s, path)
+			}
+		}
 		if err := pub.publish(l.pkts[i]); err != nil {
 			evid.Violation(t, "wire-publish-refused", detail(nil), "publishing packet %d failed: %v", i, err)
 		}
@@ -1214,6 +1241,11 @@ func runWire(t evid.TB, pl *wplan, audience bool) *wresult {
 				"the sentinel published after the log did not reach %v within %v although %d filler packets followed it (a later filler overtook it: %v)", missing, el.Round(time.Millisecond), l.extra-1, lost)
 		}
 		if l.extra < 4000 {
+			for _, c := range clients {
+				if c.keepSent < 400 {
+					c.keepAlive(s, path)
+				}
+			}
 			f := l.extraPacket()
 			fillerKeys[l.key(0, f.Data)] = true
 			if err := pub.publish(f); err != nil {
@@ -1487,6 +1519,9 @@ func wireClassify(pl *wplan) {
 	var ivs []iv
 	inside := false
 	for _, c := range pl.Clients {
+		if c.KeepAlive > 0 {
+			evid.Class("wire: a playing client sends keep-alive requests (" + c.Kind + ")")
+		}
 		b := n + 1
 		if c.DetachAt >= 0 {
 			b = c.DetachAt
